@@ -68,7 +68,10 @@ SharedDetection(doc, c) ==
 
 \* no backend of the family can say this: a case-sensitive value without case-sensitive templates, or
 \* without a field (there is no template for case-sensitive keywords at all)
-Unsupported(K, e) == \E a \in QAtoms(e) : a.k = "cased" /\ (K.cs = "none" \/ a.f = <<>>)
+Unsupported(K, e) == \E a \in QAtoms(e) :
+    \/ (a.k = "cased" /\ (K.cs = "none" \/ a.f = <<>>))
+    \* parts of a timestamp, in a target language that has no way to address them
+    \/ (~K.ts /\ (a.k = "ts" \/ (a.k = "cmp" /\ a.x[Len(a.x)] # 47)))
 
 QueryClause(K, want, text, shared) ==
     LET got == ParseQuery(text, K.prec) IN
